@@ -546,6 +546,11 @@ unsigned cmb_random_geometric(const double p)
 {
     cmb_assert((p > 0.0) && (p <= 1.0));
 
+    if (p >= 1.0) {
+        /* Certain success in the first trial, and log(1 - p) is not finite */
+        return 1u;
+    }
+
     static CMB_THREAD_LOCAL double prev = 0.0;
     static CMB_THREAD_LOCAL double denom = 0.0;
     if (p != prev) {
